@@ -41,9 +41,9 @@ pub fn from_lib(c: pmtiles2::Compression) -> u8 {
 /// Foreign-writer style parameters (deliberately unlike the library's choices).
 #[derive(Clone, Copy, Debug, Default, serde::Serialize, serde::Deserialize, Hash, PartialEq, Eq)]
 pub struct Params {
-    /// gzip level 0-9 / brotli quality 0-11 / zstd level 1-19, taken modulo the codec's range
+    /// gzip level 0-9 / brotli quality 0-9 / zstd level 1-9, taken modulo the codec's range
     pub level: u8,
-    /// gzip: add a file-name header field; brotli: window 16 + (flag%9); zstd: checksum on
+    /// gzip: add a file-name header field; brotli: window 16 + (flag%5); zstd: checksum on
     pub flag: u8,
 }
 
@@ -64,8 +64,8 @@ pub fn compress(c: u8, data: &[u8], p: Params) -> Vec<u8> {
             e.finish().expect("gz finish")
         }
         BROTLI => {
-            let q = u32::from(p.level % 12);
-            let w = 16 + u32::from(p.flag % 9);
+            let q = u32::from(p.level % 10);
+            let w = 16 + u32::from(p.flag % 5);
             let mut out = Vec::new();
             {
                 let mut e = brotli::CompressorWriter::new(&mut out, 4096, q, w);
@@ -75,7 +75,7 @@ pub fn compress(c: u8, data: &[u8], p: Params) -> Vec<u8> {
             out
         }
         ZSTD => {
-            let lvl = 1 + i32::from(p.level % 19);
+            let lvl = 1 + i32::from(p.level % 9);
             let mut e = zstd::stream::write::Encoder::new(Vec::new(), lvl).expect("zstd enc");
             if p.flag & 1 == 1 {
                 let _ = e.include_checksum(true);
